@@ -9,6 +9,7 @@ typedef KEY_U ukey_t;
 #ifndef MAXSEG
 #define MAXSEG 8
 #endif
+unsigned int UNIT(u_mkseg_range)(ukey_t *d, unsigned long n, unsigned long start, unsigned long end, unsigned long eps, unsigned long *count, unsigned long *emitted, long *segs);
 unsigned int UNIT(u_mkseg)(ukey_t *d, unsigned long n, unsigned long eps, unsigned int chunks, unsigned long *count, unsigned long *emitted, long *segs);
 #ifndef XMAX
 #define XMAX 254
@@ -19,7 +20,12 @@ VERIF_MAIN {
   for (int i = 0; i < NK; i++) { X[i] = IN(i ? X[i - 1] : 0, XMAX); d[i] = (ukey_t) X[i]; }
   unsigned long count = 0, emitted = 0; long segs[10 * MAXSEG];
   for (int i = 0; i < 10 * MAXSEG; i++) segs[i] = 0;
+#ifdef RANGE_END
+  /* one non-final chunk [0, RANGE_END) of the chunked builder (RANGE_END < NK) */
+  unsigned int rc = UNIT(u_mkseg_range)(d, n, 0, RANGE_END, eps, &count, &emitted, segs);
+#else
   unsigned int rc = UNIT(u_mkseg)(d, n, eps, CHUNKS, &count, &emitted, segs);
+#endif
   OUT(rc); OUT(count); OUT(emitted); for (int i = 0; i < 10 * MAXSEG; i++) OUT(segs[i]);
   ASSERT(rc == 0, "segmentation of a sorted array does not throw");
   ASSERT(count == emitted && emitted >= 1 && emitted <= MAXSEG, "returned count equals the number of emitted segments");
@@ -29,11 +35,17 @@ VERIF_MAIN {
   ASSERT(segs[8] == X[0], "C03 the first segment starts at the first key");
   /* expected constraint points (px[j], py[j]) */
   i64 px[2 * NK + 2], py[2 * NK + 2]; int np = 0;
-  for (int i = 0; i < NK; i++) {
+#ifndef RANGE_END
+#define RANGE_END NK
+#define WHOLE_ARRAY 1
+#endif
+  for (int i = 0; i < RANGE_END; i++) {
     if (i == 0 || X[i] != X[i - 1]) { px[np] = X[i]; py[np] = i; np++; }
     else if (i + 1 < NK && X[i] != X[i + 1] && X[i] + 1 < X[i + 1]) { px[np] = X[i] + 1; py[np] = i; np++; }   /* guard point after a duplicated run */
   }
+#ifdef WHOLE_ARRAY
   px[np] = X[NK - 1] + 1; py[np] = NK; np++;        /* closing point: fed by the chunk that reaches n */
+#endif
   for (int j = 0; j < 2 * NK + 2; j++) if (j < np) {
     /* covering segment: the last one whose first key is <= px[j] */
     int c = 0;
